@@ -814,14 +814,25 @@ def lexer_lines(ctx, col):
 def colour_marker(ctx, col):
     """A colour marker is read and left out: it never becomes the point that later points hang on."""
     repo = ctx.repo
+    col.rule("R-COLOURLINK", "a colour marker never becomes the chain end: the result of `_parse_color` (or of a helper that hands it back) is not bound to the variable the "
+             "next points hang on -- the conversion skips a COLOR node together with everything below it (zero expected)", floor=1)
+    # helper methods that hand a colour node back to their caller (`return self._parse_color(root)` on some path), transitively
+    P = repo.get_class(PARSER)
+    hands_back = {"_parse_color"}
+    for _ in range(3):
+        for m_ in P.methods.values():
+            if m_.is_lambda or m_.name in hands_back:
+                continue
+            if any(isinstance(r_, ast.Return) and isinstance(r_.value, ast.Call) and isinstance(r_.value.func, ast.Attribute) and r_.value.func.attr in hands_back for r_ in own_nodes(m_)):
+                hands_back.add(m_.name)
     for q in ("_parse_subtree", "_parse_tree", "_parse"):
         d = repo.get_def(f"{PARSER}.{q}")
         for a in own_nodes(d):
             if isinstance(a, (ast.Assign, ast.AnnAssign, ast.NamedExpr)) and isinstance(getattr(a, "value", None), ast.Call) \
-                    and isinstance(a.value.func, ast.Attribute) and a.value.func.attr == "_parse_color":
-                col.bad("R-POINT", d.qualname, d.loc(a), "a colour marker does not become a link of the point chain",
+                    and isinstance(a.value.func, ast.Attribute) and a.value.func.attr in hands_back:
+                col.bad("R-COLOURLINK", d.qualname, d.loc(a), "a colour marker does not become a link of the point chain",
                         f"`{norm_src(a)[:70]}` makes the colour node the current chain end: the points that follow hang below a COLOR node, which the conversion "
                         f"skips together with everything below it", stmt="colour-rebinding", definite=True)
         n = sum(1 for c in own_nodes(d) if isinstance(c, ast.Call) and isinstance(c.func, ast.Attribute) and c.func.attr == "_parse_color")
         if n:
-            col.ok("R-POINT", d.qualname, d.loc(), "colour markers are parsed for their brackets only", f"{n} call(s), result not kept", stmt="colour-calls")
+            col.ok("R-COLOURLINK", d.qualname, d.loc(), "colour markers are parsed for their brackets only", f"{n} call(s), result not kept", stmt="colour-calls")
